@@ -55,5 +55,10 @@ REGISTRY = {
                     "location, optionally one look-alike) under every visiting order, and for the tree that contains every location of depth <= 2 over 8 directory names x 4 file names; the trees are built "
                     "on disk (each its own root), run with and without -tr, and C15_Trace judges per file: presence in JSON and stubs under both settings and byte-identity of unaffected stubs.",
             "ref": "DESIGN.md section 7 C15", "note": BASE_NOTE, "technique": TECH},
+    "C13": {"text": "spec/DocCache.tla models the one-entry docstring cache (Consult with the __init__ refresh rule; class-then-constructor fallback) and TLC checks cache coherence and "
+                    "transparency for every sequence of up to 3 (thorough 4) lookups over 20 lookup/target pairs; all 8000 sequences are replayed on a real DocstringParser for three styles and the tokens in each "
+                    "answer judged (own token present, no foreign token). spec/DocAttach.tla models per-declaration attachment; every order of four documented elements x four styles is run end to end and "
+                    "C13_Trace judges, per documentation comment, which element/tag each unique token sits on, the description lines, and equality of comments across the structured styles.",
+            "ref": "DESIGN.md section 7 C13", "note": BASE_NOTE + " Tokens are extracted from answers/comments by the harness.", "technique": TECH},
 }
 NOT_APPLICABLE = {}
